@@ -13,7 +13,7 @@ use ff::Field;
 use num_bigint::BigUint;
 use num_traits::{One, Zero};
 use serde_json::{json, Value};
-use subtle::{Choice, ConditionallySelectable, ConstantTimeEq};
+use subtle::Choice;
 use vcore::{
     big::{bu, hexs, Fp},
     catch, CaseOut, Viol,
@@ -403,7 +403,11 @@ where
             }
             let Some(r) = tc.guard(out, op, &mut panics, || dm(a), || real(x)) else { continue };
             out.eval(&format!("{op}:ok"), nontrivial(a));
-            tc.check(out, op, &r, &model(tc, a), || dm(a));
+            let mut e = model(tc, a);
+            if crate::prime::model_broken(op) {
+                e = M::add(&tc.t, &e, &M::one());
+            }
+            tc.check(out, op, &r, &e, || dm(a));
         }
         out.sample = Some(json!({"op": op, "operands": tc.alpha.len()}));
     })
@@ -424,7 +428,10 @@ where
         'outer: for (_, a, x) in &tc.alpha {
             for j in &tc.rhs {
                 let (_, b, y) = &tc.alpha[*j];
-                let e = model(&tc.t, a, b);
+                let mut e = model(&tc.t, a, b);
+                if crate::prime::model_broken(op) {
+                    e = M::add(&tc.t, &e, &M::one());
+                }
                 for (vn, f) in &variants {
                     if panics >= MAX_PANICS {
                         break 'outer;
@@ -579,6 +586,9 @@ where
     }));
     c.push(tcs(tc, "sum-product", |tc, out| {
         let mut panics = 0;
+        let sum_ref_ok = crate::prime::ref_iter_ok(tc.name, "sum-ref");
+        let prod_ref_ok = crate::prime::ref_iter_ok(tc.name, "product-ref");
+        out.counter("by_ref_iterator_impls_skipped_in_process", (!sum_ref_ok) as u64 + (!prod_ref_ok) as u64);
         // short runs keep the model cost bounded
         let idx: Vec<usize> = tc.rhs.clone();
         let xs: Vec<R> = idx.iter().map(|i| tc.alpha[*i].2).collect();
@@ -600,16 +610,27 @@ where
                 }
             }
             let dd = || json!({"prefix_len": n});
-            if let Some(r) = tc.guard(out, "sum", &mut panics, dd, || (xs[..n].iter().copied().sum::<R>(), xs[..n].iter().sum::<R>())) {
+            if let Some(r) = tc.guard(out, "sum", &mut panics, dd, || xs[..n].iter().copied().sum::<R>()) {
                 out.eval("sum:ok", n >= 2);
-                tc.check(out, "sum", &r.0, &acc_s, dd);
-                tc.check(out, "sum", &r.1, &acc_s, dd);
+                tc.check(out, "sum", &r, &acc_s, dd);
             }
-            if let Some(r) = tc.guard(out, "product", &mut panics, dd, || (xs[..n].iter().copied().product::<R>(), xs[..n].iter().product::<R>(), nzs.iter().product::<R>())) {
+            if sum_ref_ok {
+                if let Some(r) = tc.guard(out, "sum-ref", &mut panics, dd, || xs[..n].iter().sum::<R>()) {
+                    out.eval("sum-ref:ok", n >= 2);
+                    tc.check(out, "sum-ref", &r, &acc_s, dd);
+                }
+            }
+            if let Some(r) = tc.guard(out, "product", &mut panics, dd, || (xs[..n].iter().copied().product::<R>(), nzs.iter().copied().product::<R>())) {
                 out.eval("product:ok", n >= 2);
                 tc.check(out, "product", &r.0, &acc_p, dd);
-                tc.check(out, "product", &r.1, &acc_p, dd);
-                tc.check(out, "product", &r.2, &acc_pnz, dd);
+                tc.check(out, "product", &r.1, &acc_pnz, dd);
+            }
+            if prod_ref_ok {
+                if let Some(r) = tc.guard(out, "product-ref", &mut panics, dd, || (xs[..n].iter().product::<R>(), nzs.iter().product::<R>())) {
+                    out.eval("product-ref:ok", n >= 2);
+                    tc.check(out, "product-ref", &r.0, &acc_p, dd);
+                    tc.check(out, "product-ref", &r.1, &acc_pnz, dd);
+                }
             }
         }
     }));
